@@ -1237,6 +1237,16 @@ class Executor:
     def bv_bitop(self, st, op, a, b):
         ty = a.ty
         signed, w = INT_TYPES[ty]
+        if w > 64 and op == "BitXor" and signed:
+            # sign-only over-approximation (sound for proving: strictly more behaviours; a counterexample that depends on the
+            # unconstrained magnitude does not replay and ends inconclusive): the result is some value of the type whose sign bit is
+            # the xor of the operands' sign bits -- enough for the `(a ^ b) < 0` "signs differ" idiom
+            from . import builtins as _BI
+            _BI._use("BitXor on 128-bit signed operands: over-approximated, only the sign bit is modelled")
+            res = T.fresh_int("xor")
+            lo, hi = ty_range(ty)
+            st.defs.append(z3.And(res >= lo, res <= hi, (res < 0) == ((T.I(a.t) < 0) != (T.I(b.t) < 0))))
+            return IV(res, ty)
         if w > 64:
             raise Unsupported("symbolic %s on %s-bit values (%s, %s)" % (op, w, a.t, b.t))
         x = z3.Int2BV(T.I(a.t), w)
